@@ -1,8 +1,29 @@
 import Driver.Common
 import Rpki.Model.Prefix
 import Rpki.Model.AsnSet
+import Rpki.Model.PfxText
 namespace Driver.C13
 open Driver Rpki.Prefix Rpki.AsnSet Rpki.Consts
+
+def okIs {ε α : Type} [DecidableEq α] (r : Except ε α) (v : α) : Bool :=
+  match r with | .ok q => decide (q = v) | .error _ => false
+
+def hexBytes (b : List Nat) : String := toHex (b.map UInt8.ofNat)
+
+def tErr : Rpki.PfxText.TErr → String
+  | .empty => "empty" | .missingLen => "missinglen" | .invalidAddr => "addr" | .invalidLen => "len"
+  | .invalidPrefix .lenOverflow => "overflow" | .invalidPrefix .nonZeroHost => "nonzero"
+
+def showTPfx : Except Rpki.PfxText.TErr Pfx → String
+  | .ok p => s!"ok:{if p.isV4 then 4 else 6}:{p.len}:{p.bits}"
+  | .error e => s!"err:{tErr e}"
+
+def showTMlp : Except Rpki.PfxText.MTErr Mlp → String
+  | .ok m => s!"ok:{if m.pfx.isV4 then 4 else 6}:{m.pfx.len}:{m.pfx.bits}:{match m.ml with | some k => toString k | none => "-"}"
+  | .error (.invalidPrefix e) => s!"err:pfx-{tErr e}"
+  | .error .invalidMaxLenFormat => "err:mlfmt"
+  | .error (.invalidMaxLenValue .overflow) => "err:mloverflow"
+  | .error (.invalidMaxLenValue .underflow) => "err:mlunderflow"
 
 def showPErr : PErr → String
   | .lenOverflow => "err overflow" | .nonZeroHost => "err nonzero"
@@ -79,6 +100,35 @@ def handle (toks : List String) (impl : String) : Verdict :=
       { model := some (showOpt toString m.ml),
         oracle := if impl = showOpt toString m.ml ∧ ok then none else some "saturating_new result not a valid max-len" }
     | _, _ => badOp "args"
+  | ["ptext", hx] =>
+    match parseHex hx with
+    | some bs =>
+      let b := bs.map (·.toNat)
+      let a := match Rpki.ResText.parseAsn b with | some n => toString n | none => "err"
+      Verdict.ofModel s!"s={showTPfx (Rpki.PfxText.parsePfx false b)} r={showTPfx (Rpki.PfxText.parsePfx true b)} m={showTMlp (Rpki.PfxText.parseMlp b)} a={a}"
+    | none => badOp "hex"
+  | ["pfmt", p, ml, asn] =>
+    match parsePfx p, parseMl ml, asn.toNat? with
+    | some p, some ml, some asn =>
+      let m := mlpSat p ml
+      let tp := Rpki.PfxText.fmtPfx p
+      let tm := Rpki.PfxText.fmtMlp m
+      let ta := Rpki.PfxText.fmtAsn asn
+      -- the statement on the implementation's own text: it must parse back (by the model's readers, which the
+      -- `ptext` lines tie to the library's) to the value it was written for
+      let implParts := impl.splitOn " "
+      let back : Option String := match implParts with
+        | [ip, im, ia] =>
+          (match parseHex ip, parseHex im, parseHex ia with
+           | some bp, some bm, some ba =>
+             if !okIs (Rpki.PfxText.parsePfx false (bp.map (·.toNat))) p then some "the prefix text does not denote the prefix"
+             else if !okIs (Rpki.PfxText.parseMlp (bm.map (·.toNat))) m then some "the max-length prefix text does not denote the value"
+             else if Rpki.ResText.parseAsn (ba.map (·.toNat)) ≠ some asn then some "the AS number text does not denote the number"
+             else none
+           | _, _, _ => some "unparseable")
+        | _ => some "unparseable"
+      { model := some s!"{hexBytes tp} {hexBytes tm} {hexBytes ta}", oracle := back }
+    | _, _, _ => badOp "args"
   | ["text", _, _] =>
     { oracle := if impl = "ok" then none else some "text form does not parse back to the same value" }
   | [op, a, l] =>
